@@ -29,7 +29,7 @@ package memberlist
 //@   ghost var stripped bool = false
 //@   at after@memberlist.Mergeable.RemoveTombstones: stripped := true
 //@   ensures  err == nil && version == get(m.store, key).Version
-//@   ensures  hidden: out != nil ==> stripped
+//@   at exit: assert hidden: out != nil ==> stripped
 //@   modifies nothing
 //@
 //@ # ---- C06: a queued update is superseded only by an update that contains it ------------------------------
@@ -88,3 +88,26 @@ package memberlist
 //@   ensures same(m.store, old(m).store)
 //@ assume func KV.broadcastNewValue
 //@   ensures same(m.store, old(m).store)
+//@
+//@ # ---- C07: the memberlist client's compare-and-swap loop ----------------------------------------------------
+//@ # one attempt: an error, or "nothing to do", leaves the store exactly as it was; a reported change was stored on top
+//@ # of the version the function saw (version overflow at 2^64 excluded)
+//@ func KV.trySingleCas
+//@   property C07
+//@   requires !isnil(m.store) && get(m.store, key).Version < 18446744073709551615
+//@   ensures  failed: r5 != nil ==> same(m.store, old(m).store)
+//@   ensures  declined: r5 == nil && r1 == 0 ==> r0 == nil && same(m.store, old(m).store)
+//@   ensures  stored: r5 == nil && r1 != 0 ==> in(key, m.store) && m.store[key].Version == get(old(m).store, key).Version + 1 && r1 == m.store[key].Version
+//@   ensures  others: forall k string :: k != key ==> (in(k, m.store) <==> in(k, old(m).store)) && (in(k, m.store) ==> same(m.store[k], old(m).store[k]))
+//@   ensures  !isnil(m.store)
+//@
+//@ # the loop: a call that reports failure has left the stored value unchanged; success is reported right after the
+//@ # attempt that stored (or declined), with nothing in between that could turn it into an error
+//@ func KV.CAS
+//@   property C07
+//@   requires !isnil(m.store) && get(m.store, key).Version < 18446744073709551614
+//@   ghost var wrote bool = false
+//@   at after@memberlist.KV.trySingleCas: wrote := wrote || ($r5 == nil && $r1 != 0)
+//@   at exit: assert failure_means_unchanged: result != nil ==> !wrote && same(m.store, old(m).store)
+//@   at exit: assert one_write: result == nil && wrote ==> in(key, m.store) && m.store[key].Version == get(old(m).store, key).Version + 1
+//@   loop 0 invariant !wrote && same(m.store, old(m).store) && !isnil(m.store)
